@@ -98,3 +98,13 @@ claim('C16',
       "liveness (every call is answered, the child exits) is not expressible as a contract here.",
       "contract-based deductive verification: rely/guarantee over a finite abstraction, all line x interference combinations explored on the real methods",
       "DESIGN.md 3 C16")
+claim('C08',
+      "Exception-freedom contracts: every extract_visitor.visit_* over every input its ASDL signature allows (all assignment-target classes, "
+      "optional fields absent/present, lists empty/non-empty, module/class/function scope, deeper children opaque); lint's E01 clause and "
+      "usage loop over every class a names table can hold; location()'s formatting over every result class; import failures contained; "
+      "RuntimeName.call over an arbitrary failing constructor; the re-entrancy guard of EvalCtx.evaluate.",
+      "Termination and whole-API totality are not decided (no decreases measure across the memoised mutual recursion of the evaluator; only "
+      "the functions under contract are covered - the evaluator's dispatch is exercised but not enumerated); ast.parse conforms to the ASDL "
+      "signatures the node classes document.",
+      "contract-based deductive verification: exhaustive one-level skeletons derived from the ASDL signatures, executed on the real functions",
+      "DESIGN.md 3 C08")
